@@ -1012,6 +1012,12 @@ def finalize_case(case, rng, nprng, P):
     choose_kwargs(rng, case)
     if not case.dtypes:
         case.dtypes = [rng.choice(["float64", "float64", "int64"]) for _ in case.inputs]
+    # data-moving operations work for every dtype: widen the pool there
+    if case.family == "id" or (case.family == "preserve" and case.op in ("flip", "roll")):
+        case.dtypes = [rng.choice(["float64", "int64", "float32", "int32", "bool"]) if rng.random() < 0.4 else d for d in case.dtypes]
+    elif case.family == "get_at" and rng.random() < 0.3:
+        case.dtypes[0] = rng.choice(["float32", "int32", "bool"])
+        case.feats.add("dtype-variety")
     tensors = []
     for i, (shape, dt) in enumerate(zip(case.in_shapes, case.dtypes)):
         nonzero = case.op in ("true_divide", "floor_divide", "divide") and i == 1
@@ -1067,3 +1073,29 @@ def generate(rng, nprng, family=None, P=None, op=None, tries=200):
         except Skip:
             continue
     raise RuntimeError("generator failed to produce a case")
+
+
+def risk(case):
+    """Purely structural input classes with a hand-confirmed einx defect (keys of known findings).
+    multi-bracket-in-flatten: two adjacent bracketed axes inside a flattened axis (CSE merges them).
+    equal-numbers-in-groups: two different numeric axes of equal value inside parenthesised groups (CSE
+    identifies sub-expressions by their printed text and conflates them)."""
+    tags = []
+    if "multi-bracket-in-flatten" in case.feats:
+        tags.append("multi-bracket-in-flatten")
+    seen = {}
+
+    def rec(items, depth):
+        for n in items:
+            if isinstance(n, Num) and depth > 0:
+                seen.setdefault(n.value, set()).add(n.uid)
+            elif isinstance(n, (Flat, Cat)):
+                rec(n.items, depth + 1)
+            elif isinstance(n, (Br, Ell)):
+                rec(n.items, depth)
+
+    for e in list(case.inputs) + list(case.outputs or []):
+        rec(e, 0)
+    if any(len(u) > 1 for u in seen.values()):
+        tags.append("equal-numbers-in-groups")
+    return "+".join(tags)
